@@ -6,19 +6,22 @@
    One initial state per (configuration, kind, place) - and one per configuration
    for the seeded multi-statement instances.                                   *)
 EXTENDS PrefixScope, Json, SequencesExt
-CONSTANTS NSample, NRand, NStack, NMut
+CONSTANTS NSample, NRand, NStack, NMut, NCtl, NSp
 VARIABLES chunk, done
-GChunks == UNION {UNION {{<<c, k, p>> : p \in Places(k)} : k \in Kinds} : c \in Cfgs} \cup {<<c, "multi", "multi">> : c \in Cfgs} \cup {<<c, "stack", "stack">> : c \in Cfgs} \cup {<<c, "mutated", "mutated">> : c \in Cfgs}
+GChunks == UNION {UNION {{<<c, k, p>> : p \in Places(k)} : k \in Kinds} : c \in Cfgs} \cup {<<c, "multi", "multi">> : c \in Cfgs} \cup {<<c, "stack", "stack">> : c \in Cfgs} \cup {<<c, "mutated", "mutated">> : c \in Cfgs} \cup {<<c, "ctl", "ctl">> : c \in Cfgs}
 MapsOf(c) == [m \in Units(c) |-> [own |-> Own(c, m), imports |-> SetToSeq(ImportsOf(c, m)), belongs |-> IF IsSub(m) THEN ModOf(m) ELSE ""]]
-StmtOut(c, s) == [kind |-> s.kind, place |-> s.place, T |-> s.T, U |-> s.U, V |-> s.V, e |-> s.e, pf |-> s.pf, on |-> s.on, hp |-> s.hp,
-                  text |-> SText(s), mut |-> s.mut, bad |-> Bad(c, s), syntax |-> SyntaxOK(s),
+StmtOut(c, s) == [kind |-> s.kind, place |-> s.place, T |-> s.T, U |-> s.U, V |-> s.V, e |-> s.e, pf |-> s.pf, on |-> s.on, hp |-> s.hp, sp |-> s.sp,
+                  text |-> SText(s), mut |-> s.mut, bad |-> Bad(c, s), loose |-> Loose(c, s), syntax |-> SyntaxOK(s),
                   names |-> Names(c, s), namedJudged |-> NamedJudged(s), observable |-> Observable(s)]
 Vec(I) == [cfg |-> I.cfg, maps |-> MapsOf(I.cfg), stmts |-> [i \in 1..Len(I.stmts) |-> StmtOut(I.cfg, I.stmts[i])],
            verdict |-> Verdict(I), badStmts |-> SetToSeq(BadStmts(I))]
 InstancesOf(ch) == IF ch[2] = "multi" THEN Multi(ch[1], NRand)
                    ELSE IF ch[2] = "stack" THEN Stacks(ch[1], NStack)
                    ELSE IF ch[2] = "mutated" THEN Mutated(ch[1], NMut) \cup (IF NSample = 0 THEN MutAll(ch[1]) ELSE MutBoundary(ch[1]))
-                   ELSE IF NSample = 0 THEN Single(ch[1], ch[2], ch[3])
+                   \* control characters: seeded samples for every character and kind; thorough: one configuration exhaustively
+                   ELSE IF ch[2] = "ctl" THEN Ctl(ch[1], NCtl) \cup (IF NSample = 0 /\ ch[1] = "swap" THEN CtlAll(ch[1]) ELSE {})
+                   \* thorough: every statement with plain colons, and NSp seeded statements with blanks around the colons
+                   ELSE IF NSample = 0 THEN Single(ch[1], ch[2], ch[3]) \cup {[cfg |-> ch[1], stmts |-> <<s>>] : s \in SpacedStmts(ch[1], ch[2], ch[3], NSp)}
                    ELSE {[cfg |-> ch[1], stmts |-> <<s>>] : s \in SampleStmts(ch[1], ch[2], ch[3], NSample)}
 FileOf(ch) == "pvec_" \o ch[1] \o "_" \o ch[2] \o "_" \o ch[3] \o ".ndjson"
 GInit == chunk \in GChunks /\ done = FALSE
